@@ -32,6 +32,7 @@ type Result struct {
 	Terms []*Term `json:"-"`
 
 	Stuck     []string `json:"stuck,omitempty"` // library goroutines that did not end after teardown
+	PreStuck  []string `json:"pre_stuck,omitempty"` // library goroutines alive at the horizon although every instance was stopped
 	Spin      string   `json:"spin,omitempty"`
 	FPs       []uint64 `json:"-"`
 	Hash      uint64   `json:"hash"`
@@ -435,6 +436,7 @@ func RunOnce(t *testing.T, scn *Scenario, prefix []string, keepTrace bool) *Resu
 			}
 			e := evs[i]
 			w.stepTarget = e.tgt
+			w.curEvent = e.Name
 			if e.run == nil { // time
 				w.mu.Unlock()
 				w.passTime()
@@ -536,7 +538,24 @@ func (w *World) snapshot() []ISnap {
 		if !in.created {
 			continue
 		}
-		s := ISnap{I: id, IsLeader: in.el.IsLeader(), Token: in.el.Token(), LeaderID: in.el.LeaderID(), Gauge: in.gauge, NProm: in.nProm, NDem: in.nDem, Blocked: true}
+		s := ISnap{I: id, IsLeader: in.el.IsLeader(), Token: in.el.Token(), LeaderID: in.el.LeaderID(), Gauge: in.gauge, NProm: in.nProm, NDem: in.nDem, Blocked: true,
+			InStop: in.inStopCall > 0, StopDone: in.stopDone, Started: in.started, Cut: in.cut(), WQ: -1}
+		for _, hw := range w.watchers {
+			if hw.Inst == id && !hw.stopped && !hw.closed {
+				s.WQ, s.WDeliv = len(hw.queue), hw.nDeliv
+			}
+		}
+		for _, p := range w.pending {
+			if p.Inst == id {
+				s.Pend++
+			}
+		}
+		for k := len(w.ops) - 1; k >= 0; k-- {
+			if o := w.ops[k]; o.Inst == id && o.Wrote != nil && !o.Wrote.Del && o.Answered && o.resErr == nil {
+				s.OwnRev = o.Wrote.Rev
+				break
+			}
+		}
 		snaps = append(snaps, s)
 		idx := len(snaps) - 1
 		if in.statusStuck {
@@ -584,6 +603,25 @@ type statusView struct {
 // bubble drain for a virtual hour, and take a census of what is still there.
 func (w *World) teardown(res *Result) {
 	w.mu.Lock()
+	allStopped := len(w.pending) == 0
+	nCreated := 0
+	for _, id := range w.order {
+		in := w.insts[id]
+		if in.created {
+			nCreated++
+			if !in.stopDone || in.inStopCall > 0 {
+				allStopped = false
+			}
+		}
+	}
+	for _, a := range w.actors {
+		if a.busy {
+			allStopped = false
+		}
+	}
+	if allStopped && nCreated > 0 && runtime.NumGoroutine() > w.baseGor {
+		res.PreStuck = libraryGoroutines(false)
+	}
 	w.closing = true
 	w.fineOn = false
 	w.ev(Ev{K: "teardown"})
@@ -623,7 +661,7 @@ func (w *World) teardown(res *Result) {
 	w.mu.Unlock()
 	synctest.Wait()
 	if runtime.NumGoroutine() > w.baseGor {
-		res.Stuck = libraryGoroutines()
+		res.Stuck = libraryGoroutines(true)
 	}
 }
 
@@ -632,7 +670,7 @@ func (w *World) teardown(res *Result) {
 var leakedIDs = map[string]bool{}
 var stackBuf []byte
 
-func libraryGoroutines() []string {
+func libraryGoroutines(mark bool) []string {
 	if stackBuf == nil {
 		stackBuf = make([]byte, 1<<22)
 	}
@@ -653,7 +691,9 @@ func libraryGoroutines() []string {
 		if leakedIDs[hdr] {
 			continue // left over from an earlier execution of this worker
 		}
-		leakedIDs[hdr] = true
+		if mark {
+			leakedIDs[hdr] = true
+		}
 		var frames []string
 		lines := strings.Split(g, "\n")
 		state := ""
